@@ -41,3 +41,10 @@ Theorem C10_rejects_edge_in_three_triangles : forall (K : Type) (o : Ops K) v ts
   Forall distinct_tri ts -> i < j -> tri_count ts i j >= 3 -> orient o v ts = Err ValueError.
 Proof. exact @orient_rejects_nonmanifold. Qed.
 Print Assumptions C10_rejects_edge_in_three_triangles.
+
+(* an oriented mesh (open, or closed with non-negative enclosed volume) is a fixed point of orient_: unchanged, 0 returned *)
+Theorem C10_oriented_mesh_is_fixed_point : forall v ts, is_oriented ts = true ->
+  (is_closed ts = false \/ (0 <= sumK Rops (map (tri_spat Rops v) ts) / 6)%R) ->
+  orient Rops v ts = Ok (ts, 0).
+Proof. exact orient_fixed_point. Qed.
+Print Assumptions C10_oriented_mesh_is_fixed_point.
